@@ -10,6 +10,7 @@ import Driver.Chunks
 import Driver.Adpcm
 import Driver.C10
 import Driver.C17
+import Driver.C03
 open Sf
 
 def lawOf (s : String) : Option G711.Law :=
@@ -63,4 +64,5 @@ def main (args : List String) : IO UInt32 := do
   | "c10enum" :: _ => Sf.C10Driver.enumCmd
   | "c10fcheck" :: _ => Sf.C10Driver.fcheckCmd
   | "c17grid" :: rest => C17Driver.main rest
+  | "c03" :: rest => C03Driver.main rest
   | _ => IO.eprintln "usage: sfmodel <g711|...> ..."; return 2
